@@ -298,6 +298,14 @@ func runC20(c *Ctx) {
 		if isCall && calleeName(cv) == "sync.NewCond" && full {
 			okInit = true
 		}
+		// the entry's lock is a lock of its own: a condition variable built over a lock that operations hold while they wait
+		// for the underlying agent (the server's state lock, its read side, a package-level lock) makes Broadcast - and
+		// with it the release of the waiters - wait for those operations
+		if isCall && calleeName(cv) == "sync.NewCond" && len(cv.Call.Args) == 1 {
+			w.condOwner = m.Owner(m.fConds)
+			shared := sharedLockOrigin(w, cv.Call.Args[0], 0)
+			c.Check(shared == "", "R2.cond", "constructor|every entry has a lock of its own", w.Pos(cv.Pos()), "sync.NewCond over a lock allocated for the entry", "the condition variables are built over "+shared+": broadcasting a code blocks while any operation holds that lock, so a request no longer releases the waiters on receipt")
+		}
 		c.Check(isCall && calleeName(cv) == "sync.NewCond" && full, "R1.index", "constructor|every table entry initialised", w.Pos(st.Pos()), "conds[i] = sync.NewCond(...) for i over the whole table", "the condition table is not fully initialised with non-nil condition variables (a nil entry panics in Wait)")
 	}
 	// the table is written only while the server is being constructed: the writing function is a constructor
@@ -797,6 +805,56 @@ func condOpName(w *World, root *ssa.Function, call ssa.CallInstruction) string {
 	if f, ok := throughCell(strip(sites[0].Common().Args[paramIndex(p)])).(*ssa.Function); ok {
 		if fn := fnName(f); strings.HasPrefix(fn, "(*sync.Cond).") {
 			return fn
+		}
+	}
+	return ""
+}
+
+// sharedLockOrigin names the field or package-level variable a sync.Locker value is taken from ("" when it is allocated
+// where it is used, or comes from something this does not follow).
+func sharedLockOrigin(w *World, v ssa.Value, depth int) string {
+	if depth > 6 {
+		return ""
+	}
+	switch x := strip(v).(type) {
+	case *ssa.MakeInterface:
+		return sharedLockOrigin(w, x.X, depth+1)
+	case *ssa.ChangeInterface:
+		return sharedLockOrigin(w, x.X, depth+1)
+	case *ssa.FieldAddr:
+		et := x.X.Type()
+		if pt, ok := et.Underlying().(*types.Pointer); ok {
+			et = pt.Elem()
+		}
+		// a field of a per-entry value allocated where the entry is built is the entry's own lock
+		if al, isAl := strip(x.X).(*ssa.Alloc); isAl && !types.Identical(et, w.condOwner) && al.Block() == x.Block() {
+			return ""
+		}
+		if st, _ := et.Underlying().(*types.Struct); st != nil {
+			return "the field " + st.Field(x.Field).Name() + " of " + shortName(et.String())
+		}
+	case *ssa.Field:
+		return sharedLockOrigin(w, x.X, depth+1)
+	case *ssa.Global:
+		return "the package-level variable " + x.Name()
+	case *ssa.UnOp:
+		if x.Op == token.MUL {
+			return sharedLockOrigin(w, x.X, depth+1)
+		}
+	case *ssa.Call:
+		if callee := x.Call.StaticCallee(); callee != nil && !x.Call.IsInvoke() {
+			if n := calleeName(x); n == "(*sync.RWMutex).RLocker" && len(x.Call.Args) == 1 {
+				return sharedLockOrigin(w, x.Call.Args[0], depth+1)
+			}
+			if w.InRepo(callee) && callee.Blocks != nil {
+				for _, b := range callee.Blocks {
+					if r, ok := b.Instrs[len(b.Instrs)-1].(*ssa.Return); ok && len(r.Results) == 1 {
+						if s := sharedLockOrigin(w, r.Results[0], depth+1); s != "" {
+							return s
+						}
+					}
+				}
+			}
 		}
 	}
 	return ""
